@@ -2,7 +2,8 @@
   C13 — Immunity cache is a bounded FIFO map with exact accounting.
 -/
 import SV.Immunity.Proofs
-import SV.GenProofs
+import SV.GenProofs.Immunity
+import SV.Immunity.CacheProofs
 namespace SV.Props.C13
 open SV SV.Immunity
 
@@ -38,5 +39,36 @@ theorem source_chunk_config_is_the_models (c : Config) :
     ((c.chunkCfg.maxNumItems : Nat) : Int) = Gen.chunkMaxNumItems c.numChunks c.maxNumItems ∧
     ((c.chunkCfg.maxNumBytes : Nat) : Int) = Gen.chunkMaxNumBytes c.numChunks c.maxNumBytes ∧
     ((c.chunkCfg.numToEvict : Nat) : Int) = Gen.chunkNumItemsToEvict c.numChunks c.numItemsToEvict := GenProofs.chunkCfg_eq c
+
+/-! ### the whole cache (any number of chunks ≥ 1) — SV.Immunity.CacheProofs -/
+
+/-- after ANY history of HasOrAdd/Put (sizes ≥ 0), Remove, ImmunizeKeys, Clear: the cache invariant holds and the cache
+    never holds more than MaxNumItems items -/
+theorem cache_never_exceeds_max (cfg : Config) (hn : 1 ≤ cfg.numChunks) (ops : List CacheOp) (hw : ∀ op ∈ ops, op.sizeOk) :
+    CacheInv (ops.foldl Cache.apply (Cache.init cfg)) ∧ (ops.foldl Cache.apply (Cache.init cfg)).count ≤ cfg.maxNumItems :=
+  ⟨CacheInv.run cfg hn ops hw, count_le_max_run cfg hn ops hw⟩
+/-- Count, Len, Keys, ForEachItem, Get and Has describe the same set; NumBytes = Σ sizes; CountImmune = number of
+    distinct immune keys -/
+theorem cache_views_agree {c : Cache} (h : CacheInv c) :
+    (∀ k p, c.get k = some p ↔ ∃ it ∈ c.items, it.key = k ∧ it.payload = p) ∧
+    (c.items.map (·.key)).Nodup ∧ c.count = c.items.length ∧ c.numBytes = sumSz c.items ∧
+    c.countImmune = c.immuneKeys.length ∧ c.immuneKeys.Nodup :=
+  ⟨get_iff h, items_keys_nodup h, count_eq_length c, numBytes_eq_sum h, countImmune_eq_length c, immuneKeys_nodup h⟩
+/-- HasOrAdd at cache level: has ⇔ was present; added ⇔ became present (then with the given payload) -/
+theorem cache_flags_truthful {c : Cache} (h : CacheInv c) (k p : Bytes) (s : Int) :
+    let r := c.hasOrAdd Variant.current k p s
+    r.2.1 = (c.get k).isSome ∧ (r.2.2 = true ↔ ((c.get k).isSome = false ∧ (r.1.get k).isSome = true)) ∧
+    (r.2.2 = true → r.1.get k = some p) := hasOrAdd_flags h k p s
+/-- Remove withdraws the key's current or future immunity and no other -/
+theorem cache_remove_withdraws_immunity {c : Cache} (h : CacheInv c) (k x : Bytes) :
+    x ∈ (c.remove k).1.immuneKeys ↔ x ∈ c.immuneKeys ∧ x ≠ k := immuneKeys_remove h k x
+/-- the ImmunizeKeys capacity gate refuses the call as a whole: no chunk, no view changes -/
+theorem cache_immunize_gate_refuses_whole (c : Cache) (keys : List Bytes)
+    (hg : c.countImmune + keys.length > c.cfg.maxNumItems) :
+    c.immunizeKeys keys = (c, 0, 0) ∧
+    (∀ i : Nat, (c.immunizeKeys keys).1.chunks[i]? = c.chunks[i]?) ∧
+    (∀ k, (c.immunizeKeys keys).1.chunkOf k = c.chunkOf k) ∧
+    (c.immunizeKeys keys).1.immuneKeys = c.immuneKeys ∧ (c.immunizeKeys keys).1.items = c.items :=
+  immunize_gate_refuses_whole c keys hg
 
 end SV.Props.C13
